@@ -505,9 +505,66 @@ unsafe impl<T: Sharable, const N: usize> Sharable for [T; N] {
 
 unsafe impl<T: OwnedLockable, const N: usize> OwnedLockable for [T; N] {}
 
+/// The guards of a `Vec` or boxed slice of locks.
+///
+/// It dereferences to a slice of the member guards. Unlike a `Box<[Guard]>`,
+/// there is no way to make one, not even an empty one, so the guards (and
+/// with them the locks they hold) cannot be moved out of a collection's guard
+/// with [`std::mem::take`] or [`std::mem::replace`] and outlive the key's
+/// return.
+pub struct GuardSlice<Guard>(Box<[Guard]>);
+
+impl<Guard> std::ops::Deref for GuardSlice<Guard> {
+	type Target = [Guard];
+
+	fn deref(&self) -> &Self::Target {
+		&self.0
+	}
+}
+
+impl<Guard> std::ops::DerefMut for GuardSlice<Guard> {
+	fn deref_mut(&mut self) -> &mut Self::Target {
+		&mut self.0
+	}
+}
+
+#[mutants::skip]
+#[cfg(not(tarpaulin_include))]
+impl<Guard: std::fmt::Debug> std::fmt::Debug for GuardSlice<Guard> {
+	fn fmt(&self, f: &mut std::fmt::Formatter<'_>) -> std::fmt::Result {
+		std::fmt::Debug::fmt(&self.0, f)
+	}
+}
+
+#[mutants::skip] // hashing involves RNG and is hard to test
+#[cfg(not(tarpaulin_include))]
+impl<Guard: std::hash::Hash> std::hash::Hash for GuardSlice<Guard> {
+	fn hash<H: std::hash::Hasher>(&self, state: &mut H) {
+		self.0.hash(state)
+	}
+}
+
+impl<'a, Guard> IntoIterator for &'a GuardSlice<Guard> {
+	type Item = &'a Guard;
+	type IntoIter = std::slice::Iter<'a, Guard>;
+
+	fn into_iter(self) -> Self::IntoIter {
+		self.0.iter()
+	}
+}
+
+impl<'a, Guard> IntoIterator for &'a mut GuardSlice<Guard> {
+	type Item = &'a mut Guard;
+	type IntoIter = std::slice::IterMut<'a, Guard>;
+
+	fn into_iter(self) -> Self::IntoIter {
+		self.0.iter_mut()
+	}
+}
+
 unsafe impl<T: Lockable> Lockable for Box<[T]> {
 	type Guard<'g>
-		= Box<[T::Guard<'g>]>
+		= GuardSlice<T::Guard<'g>>
 	where
 		Self: 'g;
 
@@ -523,7 +580,7 @@ unsafe impl<T: Lockable> Lockable for Box<[T]> {
 	}
 
 	unsafe fn guard(&self) -> Self::Guard<'_> {
-		self.iter().map(|lock| lock.guard()).collect()
+		GuardSlice(self.iter().map(|lock| lock.guard()).collect())
 	}
 
 	unsafe fn data_mut(&self) -> Self::DataMut<'_> {
@@ -554,7 +611,7 @@ impl<T: LockableIntoInner + 'static> LockableIntoInner for Box<[T]> {
 
 unsafe impl<T: Sharable> Sharable for Box<[T]> {
 	type ReadGuard<'g>
-		= Box<[T::ReadGuard<'g>]>
+		= GuardSlice<T::ReadGuard<'g>>
 	where
 		Self: 'g;
 
@@ -564,7 +621,7 @@ unsafe impl<T: Sharable> Sharable for Box<[T]> {
 		Self: 'a;
 
 	unsafe fn read_guard(&self) -> Self::ReadGuard<'_> {
-		self.iter().map(|lock| lock.read_guard()).collect()
+		GuardSlice(self.iter().map(|lock| lock.read_guard()).collect())
 	}
 
 	unsafe fn data_ref(&self) -> Self::DataRef<'_> {
@@ -575,7 +632,7 @@ unsafe impl<T: Sharable> Sharable for Box<[T]> {
 unsafe impl<T: Lockable> Lockable for Vec<T> {
 	// There's no reason why I'd ever want to extend a list of lock guards
 	type Guard<'g>
-		= Box<[T::Guard<'g>]>
+		= GuardSlice<T::Guard<'g>>
 	where
 		Self: 'g;
 
@@ -591,7 +648,7 @@ unsafe impl<T: Lockable> Lockable for Vec<T> {
 	}
 
 	unsafe fn guard(&self) -> Self::Guard<'_> {
-		self.iter().map(|lock| lock.guard()).collect()
+		GuardSlice(self.iter().map(|lock| lock.guard()).collect())
 	}
 
 	unsafe fn data_mut(&self) -> Self::DataMut<'_> {
@@ -601,7 +658,7 @@ unsafe impl<T: Lockable> Lockable for Vec<T> {
 
 unsafe impl<T: Sharable> Sharable for Vec<T> {
 	type ReadGuard<'g>
-		= Box<[T::ReadGuard<'g>]>
+		= GuardSlice<T::ReadGuard<'g>>
 	where
 		Self: 'g;
 
@@ -611,7 +668,7 @@ unsafe impl<T: Sharable> Sharable for Vec<T> {
 		Self: 'a;
 
 	unsafe fn read_guard(&self) -> Self::ReadGuard<'_> {
-		self.iter().map(|lock| lock.read_guard()).collect()
+		GuardSlice(self.iter().map(|lock| lock.read_guard()).collect())
 	}
 
 	unsafe fn data_ref(&self) -> Self::DataRef<'_> {
